@@ -82,6 +82,9 @@ TEMPLATES = [
     ('x-c>x-a[k=v]{%s}+x-b', lambda p: [['open', 'x-c'], ['open', 'x-a']] + _t(p) + [['close', 'x-a'], ['open', 'x-b'], ['close', 'x-b'], ['close', 'x-c']]),
     ('(x-a.c{%s})*2', lambda p: ([['open', 'x-a']] + _t(p) + [['close', 'x-a']]) * 2),
     ('x-c>x-b+x-a{%s}', lambda p: [['open', 'x-c'], ['open', 'x-b'], ['close', 'x-b'], ['open', 'x-a']] + _t(p) + [['close', 'x-a'], ['close', 'x-c']]),
+    # text standing on its own (no element of its own): what is written after `>` still follows it - also when the text is empty
+    ('x-c>{%s}>x-b', lambda p: [['open', 'x-c']] + _t(p) + [['open', 'x-b'], ['close', 'x-b'], ['close', 'x-c']]),
+    ('{%s}>x-b', lambda p: _t(p) + [['open', 'x-b'], ['close', 'x-b']]),
 ]
 
 
